@@ -415,9 +415,73 @@ def _late_inplace(ctx):
     return grad_inplace_rule(ctx)
 
 
+def grad_ident_rule(ctx):
+    """GRAD-IDENT: a trainable parameter keeps its identity for the lifetime of the module.  An optimiser (and
+    every `torch.autograd.grad(.., params)` call) holds the Parameter objects collected when it was built;
+    a method that *rebinds* the attribute to a new nn.Parameter / tensor after construction leaves those
+    holding tensors that are no longer part of the computation: their gradient is None, the new leaf is
+    never updated.  Decided per class: outside the constructor (and the helpers only it calls) no method
+    assigns to `self.<registered parameter>` -- writes go through `.data` / in-place operations."""
+    import ast
+
+    from ..model import PARAM
+
+    p = ctx.p
+    res = RuleResult("GRAD-IDENT", "no method other than the constructor (and helpers only it calls) rebinds a registered nn.Parameter attribute: parameters keep their identity, so optimisers and autograd.grad see the tensors the module computes with")
+    n_classes = n_params = 0
+    for cls in p.all_classes():
+        if not cls.is_nn_module():
+            continue
+        table = p.attrs(cls)
+        params = {nm for nm, ai in table.items() if ai.kind == PARAM}
+        if not params:
+            continue
+        n_classes += 1
+        n_params += len(params)
+        methods = {}
+        for c in reversed(cls.repo_mro()):
+            methods.update(c.methods)
+        # helpers reachable from __init__ only
+        calls = {nm: {n.func.attr for n in ast.walk(fi.node) if isinstance(n, ast.Call) and isinstance(n.func, ast.Attribute) and isinstance(n.func.value, ast.Name) and n.func.value.id == "self" and n.func.attr in methods} for nm, fi in methods.items()}
+
+        def reach(start):
+            seen, todo = set(), list(start)
+            while todo:
+                m = todo.pop()
+                if m in seen:
+                    continue
+                seen.add(m)
+                todo.extend(calls.get(m, ()))
+            return seen
+
+        from_init = reach(["__init__"])
+        others = reach([m for m in methods if m not in from_init or (not m.startswith("_") and m != "__init__")])
+        for nm, fi in methods.items():
+            if nm == "__init__" or (nm in from_init and nm not in others):
+                continue
+            if fi.cls is None or fi.cls not in cls.repo_mro():
+                continue
+            for st in ast.walk(fi.node):
+                targets = []
+                if isinstance(st, ast.Assign):
+                    targets = st.targets
+                elif isinstance(st, (ast.AnnAssign,)):
+                    targets = [st.target]
+                for t in targets:
+                    for x in ast.walk(t) if isinstance(t, (ast.Tuple, ast.List)) else [t]:
+                        if isinstance(x, ast.Attribute) and isinstance(x.value, ast.Name) and x.value.id == "self" and x.attr in params and isinstance(x.ctx, ast.Store):
+                            res.fail(Finding("GRAD-IDENT", fi.module, fi.qualname, st, "`self.%s` is a registered parameter of %s and is rebound here, after construction: an optimiser built before this runs keeps the old tensor (its .grad stays None and the new one is never updated); write through `.data` / an in-place operation under no_grad instead" % (x.attr, cls.name), construct="rebinding of parameter %s.%s" % (fi.cls.name, x.attr)))
+                if isinstance(st, ast.Call) and isinstance(st.func, ast.Name) and st.func.id in ("setattr", "delattr") and len(st.args) >= 2 and isinstance(st.args[0], ast.Name) and st.args[0].id == "self" and isinstance(st.args[1], ast.Constant) and st.args[1].value in params:
+                    res.fail(Finding("GRAD-IDENT", fi.module, fi.qualname, st, "`%s(self, %r, ..)` replaces a registered parameter of %s after construction" % (st.func.id, st.args[1].value, cls.name), construct="rebinding of parameter %s.%s" % (fi.cls.name, st.args[1].value)))
+    if n_classes < getattr(ctx, "grad_ident_floor", 8):
+        raise AnalysisIncomplete("GRAD-IDENT: %d module classes with parameters (< 8)" % n_classes)
+    res.ok("%d module classes, %d registered parameters: none rebound outside construction" % (n_classes, n_params))
+    return res
+
+
 register(
     "C16",
-    [grad_cut_rule, grad_reach_rule, _late_inplace, grad_where_rule, grad_umnn_rule],
+    [grad_cut_rule, grad_reach_rule, _late_inplace, grad_where_rule, grad_umnn_rule, grad_ident_rule],
     "Forward may-dependence (taint) analysis over every differentiable entry point (forward/inverse of every Transform per "
     "concrete receiver class, the Linear accessors, log_prob/_log_prob/mean of every Distribution, Flow.sample_and_log_prob/"
     "_sample/transform_to_noise, forward/log_prob of the remaining nn.Modules, the eight spline functions). Gradient-severing "
